@@ -1,7 +1,7 @@
 #!/bin/bash
 # run every quick (or $1) check on /repo as it is; print one line per check
 T=${1:-quick}
-cd /verif
+cd "$(dirname "$0")/.." || exit 2
 for i in 01 02 03 04 05 06 07 08 09 10 11 12 13 14 15 16 17 18; do
   s=$(date +%s)
   out=$(./check C$i --tier $T 2>&1); rc=$?
